@@ -1,29 +1,72 @@
 #!/usr/bin/env python3
-"""Print a markdown table of /verif/seeded/*/meta.json (for DESIGN.md section 10.5)."""
+"""Print a markdown table of /verif/seeded/*/meta.json (for DESIGN.md section 10.5).
+
+The one-line description is taken from the sub-agent's own notes: the section whose heading
+names this change (`## A`, `## Change B3 ...`, `patch_A2.diff`), and in it the first
+"What / Change" line (or the heading itself when it already says what was changed).
+"""
 import glob
 import json
-import os
 import re
 
-rows = []
-for p in sorted(glob.glob("/verif/seeded/*/meta.json")):
-    m = json.load(open(p))
-    notes = m.get("needs_to_manifest", "")
-    tag = m["id"].split("-")[1]
-    # first descriptive line for this change in the sub-agent's notes
-    what = ""
-    letter = tag[0]
-    mm = re.search(r"(?ims)^#+[^\n]*\b(?:change\s*)?%s\b[^\n]*\n(.*?)(?=^#+|\Z)" % letter, notes)
-    body = mm.group(1) if mm else notes
-    for line in body.splitlines():
-        line = line.strip(" -*")
-        if len(line) > 25:
-            what = line
+
+def section(notes, tag):
+    """Text of the notes section that belongs to change `tag` (A, B, A2, B3 ...)."""
+    heads = [(m.start(), m.group(0)) for m in re.finditer(r"(?m)^#{1,4}[^\n]*$", notes)]
+    letter, rnd = tag[0], tag[1:]
+    best = None
+    for k, (pos, h) in enumerate(heads):
+        hl = h.lower()
+        hit = ("patch_%s.diff" % tag.lower()) in hl or re.search(
+            r"\b(change\s+)?%s%s\b" % (letter.lower(), rnd), hl.replace("#", " "))
+        if not hit and rnd:
+            # notes of later rounds often name their sections just "A" / "B"
+            hit = bool(re.search(r"^#+\s*(change\s+)?%s\b" % letter.lower(), hl)) or \
+                ("patch_%s.diff" % letter.lower()) in hl
+        if hit:
+            end = heads[k + 1][0] if k + 1 < len(heads) else len(notes)
+            best = (h, notes[pos + len(h):end])
             break
-    caught = ", ".join(m.get("caught_by") or []) or "MISSED"
-    rows.append((m["id"], what[:170].replace("|", "/"), caught,
-                 "yes" if m.get("note") else ""))
-print("| id | change (from the author's notes) | caught by | check strengthened first |")
-print("|---|---|---|---|")
-for r in rows:
-    print("| %s | %s | %s | %s |" % r)
+    return best
+
+
+def describe(notes, tag):
+    sec = section(notes, tag)
+    if sec is None:
+        body, head = notes, ""
+    else:
+        head, body = sec
+    for line in body.splitlines():
+        t = line.strip(" -*")
+        if re.match(r"(?i)(what( was changed)?|change(d)?|file)\b\s*[:(]", t) and len(t) > 30:
+            return re.sub(r"(?i)^(what( was changed)?|change(d)?)\s*:\s*", "", t)
+    head = re.sub(r"^#+\s*", "", head)
+    head = re.sub(r"\(?patch_\w+\.diff\)?", "", head).strip(" -:")
+    if len(head) > 30:
+        return head
+    for line in body.splitlines():
+        t = line.strip(" -*")
+        if len(t) > 30:
+            return t
+    return head
+
+
+def main():
+    rows = []
+    for p in sorted(glob.glob("/verif/seeded/*/meta.json")):
+        m = json.load(open(p))
+        tag = m["id"].split("-")[1]
+        what = m.get("summary") or describe(m.get("needs_to_manifest", ""), tag)
+        caught = ", ".join(m.get("caught_by") or []) or "MISSED"
+        retro = m.get("caught_before_round", "")
+        rows.append((m["id"], what[:200].replace("|", "/"), caught, retro,
+                     "yes" if m.get("note") else ""))
+    print("| id | change (from its author's notes) | caught by | caught by the checks as they "
+          "stood before that round | note in meta.json |")
+    print("|---|---|---|---|---|")
+    for r in rows:
+        print("| %s | %s | %s | %s | %s |" % r)
+
+
+if __name__ == "__main__":
+    main()
